@@ -5,6 +5,7 @@ from replay import replay_validate, replay_one
 from props_conn import *   # C01 C02 C04 C10 C12
 from props_service import *  # C13 C14 C15 C16
 from props_ctxio import *    # C17 C18
+from props_client import *   # C11
 
 
 def replay(run, obj):
